@@ -102,8 +102,11 @@ print('NOT-REPRODUCED'); sys.exit(0)
 '''
 
 
-def produce_value_contract(force):
+def produce_value_contract(force, entry=None):
     def configure(I):
+        if entry is not None:
+            # the stored value of the parameter is the generator
+            I.contracts["Parameter.__get__"] = lambda I, st, fv, args, kwargs, ctx: [(st, st.ghost["gen"])]
         def produce(I, st, fv, args, kwargs, ctx):
             # _utils._produce_value(gen): calls the generator once (callback contract: returns G(gen, now))
             st.ghost["gen_calls"] = st.ghost.get("gen_calls", 0) + 1
@@ -136,6 +139,12 @@ def produce_value_contract(force):
                   z3.Or(is_time(I, time0), time0 == U.NONE),
                   # G is a function of the *numeric* time value
                   z3.Implies(z3.And(is_time(I, time0), U.num_eq(now, time0)), G(gt, now) == G(gt, time0))]
+        if entry is not None:
+            st.ghost["gen"] = gen
+            fv = I.bound_method(self, I.src.find_method("Dynamic", entry))
+            obj = Sym(U.fresh("obj"))
+            return fv, [obj, Sym(U.fresh("objtype"))], {}, {"gen": gen, "last0": last0, "time0": time0, "now": now,
+                                                             "symbols": {"now": now, "cached_time": time0}}
         fv = I.bound_method(self, I.src.find_method("Dynamic", "_produce_value"))
         return fv, [gen], ({"force": Conc(True)} if force else {}), {"gen": gen, "last0": last0, "time0": time0, "now": now,
                                                                     "symbols": {"now": now, "cached_time": time0}}
@@ -153,6 +162,8 @@ def produce_value_contract(force):
         out = [("value == G(gen, now): same time, same value, whatever was read before", I.term(oc) == G(gt, now)),
                ("preserves DynCache", dyncache(I, last, tm, gt)),
                ("time function read exactly once", z3.BoolVal(st.ghost.get("time_reads", 0) == 1))]
+        if entry is not None:
+            out.pop()      # how often an entry point consults the clock is not part of the statement
         calls = st.ghost.get("gen_calls", 0)
         same = z3.And(is_time(I, info["time0"]), U.num_eq(now, info["time0"]))
         if not force:
@@ -162,6 +173,9 @@ def produce_value_contract(force):
         else:
             out.append(("force => generator called exactly once", z3.BoolVal(calls == 1)))
         return out
+    if entry is not None:
+        return FunctionContract("%s:Dynamic.%s" % (MOD, entry), PROP, setup, post, configure=configure,
+                                name="Dynamic.%s[dynamic value, time-dependent]" % entry)
     return FunctionContract("%s:Dynamic._produce_value" % MOD, PROP, setup, post, configure=configure,
                             name="Dynamic._produce_value[%s]" % ("force" if force else "time-dependent"))
 
@@ -244,6 +258,7 @@ def time_enter_exit_contract():
 
 def contracts():
     return [initialize_generator_contract(), produce_value_contract(False), produce_value_contract(True),
+            produce_value_contract(False, entry="__get__"), produce_value_contract(True, entry="_force"),
             inspect_contract(), time_enter_exit_contract()]
 
 
